@@ -2,6 +2,7 @@ import SJ.Props.C01
 import SJ.Props.C02
 import SJ.Proofs.CanonM
 import SJ.Proofs.NumberAp
+import SJ.Proofs.TypedSameAp
 /-!
 # C20 — arbitrary_precision keeps every number literal verbatim
 
@@ -153,5 +154,62 @@ example : (asI64 [0x2b, 0x31] == some 1 && asU64 [0x30, 0x30, 0x37] == some 7 &&
     parseF64 [0x2e] == none && parseF64 [0x31, 0x65] == none) = true := by decide +kernel
 
 end accessors
+
+/-! ## typed deserialisation does not depend on the feature -/
+
+section typedSame
+open SJ.Model.Typed SJ.Proofs.TypedAp
+
+/-- **C20 (typed deserialisation is the same with and without the feature).** `Model.Typed.deTypedTop` is the
+    transcription of `from_str / from_slice / from_reader::<T>` followed by `end()`. For every build `env`
+    (source, `float_roundtrip`, recursion limit, also in the failing-reader mode of C13), either value `a` of
+    `arbitrary_precision`, every schema without a `Value` target inside (`hasAny s = false`: bool, the twelve
+    integer widths, f64, f32, char, strings, byte buffers, option, unit, newtype, seq, tuple, maps with every key
+    kind, structs incl. skipped unknown fields, enums, `IgnoredAny`) and EVERY input: the two builds return the
+    same outcome — or both fail. They can fail differently in exactly one way: when the input holds a value of the
+    wrong kind for the target, `peek_invalid_type` parses the offending scalar as `deserialize_any` would, and an
+    out-of-range number there is `number out of range` without the feature and `invalid type` with it
+    (`parse_any_number` keeps the text).
+
+    The model consults `cfg.ap` only inside the byte-step machine it uses as a sub-parser; the proof shows that
+    `parse_str` never reaches a number (`runPfx_str`), skipped content never looks at the feature
+    (`step1_ignored`), and everything else is the same code (`SJ/Proofs/TypedSameAp.lean`). A `Value` target is
+    excluded because there the feature changes the representation of numbers by design (`c20_verbatim`). -/
+theorem c20_typed_same (env : Model.Typed.Env) (a : Bool) (s : Schema) (hs : hasAny s = false) (bs : Bytes) :
+    deTypedTop (withAp env a) s bs = deTypedTop env s bs ∨
+      (topValue (deTypedTop (withAp env a) s bs) = none ∧ topValue (deTypedTop env s bs) = none) :=
+  rel_top env a s hs bs
+
+/-- in particular the VALUE is the same: `from_str::<T>` succeeds in one build iff in the other, with the same result -/
+theorem c20_typed_same_value (env : Model.Typed.Env) (a : Bool) (s : Schema) (hs : hasAny s = false) (bs : Bytes) :
+    topValue (deTypedTop (withAp env a) s bs) = topValue (deTypedTop env s bs) := by
+  rcases c20_typed_same env a s hs bs with h | ⟨h1, h2⟩
+  · rw [h]
+  · rw [h1, h2]
+
+/-- **numbers into numeric targets: identical outcomes**, error code and position included. For the twelve
+    integer widths, `f64` and `f32`, on every input whose first non-whitespace byte is a digit or `-` (every number
+    literal, every malformed one), the two builds run the very same code: `deserialize_number` /
+    `do_deserialize_i128/u128` have no `cfg(feature = "arbitrary_precision")` arm. -/
+theorem c20_typed_number_identical (env : Model.Typed.Env) (a : Bool) (s : Schema) (hs : isNumeric s = true) (bs : Bytes)
+    (h : ∀ b r p, SJ.Model.Stream.skipWs bs 0 = (b :: r, p) → isNumStart b = true) :
+    deTypedTop (withAp env a) s bs = deTypedTop env s bs :=
+  top_number_eq env a s hs bs h
+
+/-- the exclusion is necessary: into a `Value` the literal `1.0` is the text with the feature, a float without -/
+example : (match deTypedTop (withAp {} true) .any [0x31, 0x2e, 0x30], deTypedTop (withAp {} false) .any [0x31, 0x2e, 0x30] with
+    | .ok (.any (.num (.lit _))), .ok (.any (.num (.float _))) => true
+    | _, _ => false) = true := by decide +kernel
+/-- the one way the failures differ: `1e999` where a `bool` is expected -/
+example : (match deTypedTop (withAp {} true) .bool [0x31, 0x65, 0x39, 0x39, 0x39], deTypedTop (withAp {} false) .bool [0x31, 0x65, 0x39, 0x39, 0x39] with
+    | .data _, .err .NumberOutOfRange _ => true
+    | _, _ => false) = true := by decide +kernel
+/-- non-vacuity: `{"k":[1,-2.5e1]}` into `Map<String, (u8, f64)>`, same value in both builds -/
+example : (match deTypedTop (withAp {} true) (.map .string (.tuple [.int .u8, .f64]))
+      [0x7b,0x22,0x6b,0x22,0x3a,0x5b,0x31,0x2c,0x2d,0x32,0x2e,0x35,0x65,0x31,0x5d,0x7d] with
+    | .ok (.map [(.str [0x6b], .seq [.int 1, .f64 0xc039000000000000])]) => true
+    | _ => false) = true := by decide +kernel
+
+end typedSame
 
 end SJ.Props.C20
